@@ -62,6 +62,28 @@ def scratch_dir(prefix="mtverif_"):
     return tempfile.mkdtemp(prefix=prefix, dir=base)
 
 
+def run_apalache(root, init, inv, length, timeout=900):
+    """apalache-mc check --init=<init> --inv=<inv> --length=<length> on a module of /verif/specs.
+    Returns (ok, seconds, tail of the output); raises TLCFailure when the tool itself fails."""
+    d = scratch_dir("mtverif_apa_")
+    try:
+        for f in os.listdir(SPECS):
+            if f.endswith(".tla"):
+                shutil.copy(os.path.join(SPECS, f), os.path.join(d, f))
+        t0 = time.time()
+        p = subprocess.run(["apalache-mc", "check", "--init=" + init, "--inv=" + inv, "--length=%d" % length,
+                            "--out-dir=" + os.path.join(d, "out"), root + ".tla"], cwd=d, stdout=subprocess.PIPE,
+                           stderr=subprocess.STDOUT, text=True, errors="replace", timeout=timeout)
+        out = p.stdout
+        if "EXITCODE: OK" in out:
+            return True, time.time() - t0, out[-600:]
+        if "EXITCODE: ERROR (12)" in out:      # a counterexample
+            return False, time.time() - t0, out[-1500:]
+        raise TLCFailure("apalache-mc failed on %s\n%s" % (root, out[-1500:]))
+    finally:
+        shutil.rmtree(d, ignore_errors=True)
+
+
 def run_tlc(root, cfg=None, cfg_text=None, extra_files=None, env=None, workers=1, simulate=None,
             depth=None, seed=None, coverage=False, timeout=3600, xmx="3g", deque=False,
             keep_dir=None, deadlock=True, extra_args=()):
